@@ -9,7 +9,8 @@ declared volume size after each edit are predicted by the machine (`isorun`) and
 state of every generation (a new object, or one that `open` reconstructed from an image) must satisfy the invariant
 `Inv` (`invB`, proved equivalent in `invB_iff`).
 
-Not covered (the segment is skipped and counted): UDF, El Torito, isohybrid.
+UDF is part of the machine: the File Entry and the File Identifier area of every UDF directory, the File Entry sector that
+the UDF names of a content share.  Not covered (the segment is skipped and counted): El Torito, isohybrid.
 """
 import tempfile
 
@@ -49,17 +50,24 @@ def _dirs(vd):
 
 
 def snapshot(iso, ids):
-    from pycdlib import dr as drmod, path_table_record
-    if getattr(iso, '_has_udf', False) or iso.eltorito_boot_catalog is not None or getattr(iso, 'isohybrid_mbr', None) is not None:
-        raise Unsupported('udf/eltorito/isohybrid')
+    from pycdlib import dr as drmod, path_table_record, udf as udfmod
+    if iso.eltorito_boot_catalog is not None or getattr(iso, 'isohybrid_mbr', None) is not None:
+        raise Unsupported('eltorito/isohybrid')
     root = iso.pvd.root_directory_record()
     rr = root.children[0].rock_ridge if root.children else None
     er = 1 if (rr is not None and rr.dr_entries.ce_record is not None) else 0
-    snap = {'fixed': 16 + len(iso.pvds) + len(iso.brs) + len(iso.svds) + len(iso.vdsts) + (1 if iso.version_vd is not None else 0) + er,
+    has_udf = bool(getattr(iso, '_has_udf', False))
+    if has_udf:
+        # descriptors up to 32, main / reserve sequences, integrity, first anchor at 256, file set (+ terminator); the last
+        # anchor in the last sector
+        fixed = 258 + (1 if iso.udf_file_set_terminator is not None else 0) + 1 + er
+    else:
+        fixed = 16 + len(iso.pvds) + len(iso.brs) + len(iso.svds) + len(iso.vdsts) + (1 if iso.version_vd is not None else 0) + er
+    snap = {'fixed': fixed,
             'ce': len(iso.pvd.rr_ce_blocks), 'space': iso.pvd.space_size,
             'pt0': (iso.pvd.path_tbl_size, iso.pvd.path_table_num_extents),
             'pt1': (iso.joliet_vd.path_tbl_size, iso.joliet_vd.path_table_num_extents) if iso.joliet_vd is not None else (0, 0),
-            'dirs': {}, 'inos': {}, 'order': {}}
+            'dirs': {}, 'inos': {}, 'order': {}, 'udirs': {}, 'ufree': 0}
     trees = [iso.pvd] + ([iso.joliet_vd] if iso.joliet_vd is not None else [])
     for t, vd in enumerate(trees):
         for d in _dirs(vd):
@@ -70,25 +78,41 @@ def snapshot(iso, ids):
                                        'kids': [(ids.of(c), c.dr_len) for c in d.children]}
     for ino in iso.inodes:
         recs = [ids.of(r) for r, _ in ino.linked_records if isinstance(r, drmod.DirectoryRecord)]
-        if len(recs) != len(ino.linked_records):
-            raise Unsupported('non-ISO link')
-        snap['inos'][ids.of(ino)] = (ino.get_data_length(), len(recs))
+        nudf = sum(1 for r, _ in ino.linked_records if isinstance(r, udfmod.UDFFileEntry))
+        if len(recs) + nudf != len(ino.linked_records):
+            raise Unsupported('link that is neither a directory record nor a UDF entry')
+        snap['inos'][ids.of(ino)] = (ino.get_data_length(), len(recs) + nudf, nudf)
         snap['order'][ids.of(ino)] = recs
+    if has_udf:
+        stack = [iso.udf_root]
+        while stack:
+            fe = stack.pop()
+            fids = []
+            for fi in fe.fi_descs:
+                fids.append((ids.of(fi), udfmod.UDFFileIdentifierDescriptor.length(len(fi.fi))))
+                if fi.is_parent() or fi.file_entry is None:
+                    continue
+                if fi.is_dir():
+                    stack.append(fi.file_entry)
+                elif fi.file_entry.inode is None:
+                    snap['ufree'] += 1
+            snap['udirs'][ids.of(fe)] = {'fids': fids, 'info': fe.info_len}
     return snap
 
 
 def enc_state(s):
     ds = ','.join('%d:%d:%s' % (i, d['dataLen'], '.'.join(str(l) for _, l in d['kids']) or '-') for i, d in sorted(s['dirs'].items())) or '-'
-    ins = ','.join('%d:%d:%d' % (i, l, n) for i, (l, n) in sorted(s['inos'].items())) or '-'
-    return '%d;%d;%d;%d,%d;%d,%d;%s;%s' % (s['fixed'], s['ce'], s['space'], s['pt0'][0], s['pt0'][1], s['pt1'][0], s['pt1'][1], ds, ins)
+    ins = ','.join('%d:%d:%d:%d' % (i, l, n, nu) for i, (l, n, nu) in sorted(s['inos'].items())) or '-'
+    us = ','.join('%d:%d' % (i, u['info']) for i, u in sorted(s['udirs'].items())) or '-'
+    return '%d;%d;%d;%d,%d;%d,%d;%s;%s;%s;%d' % (s['fixed'], s['ce'], s['space'], s['pt0'][0], s['pt0'][1], s['pt1'][0], s['pt1'][1], ds, ins, us, s['ufree'])
 
 
 def canon(text):
     """canonical form of a state string: directories and contents sorted by id"""
     f = text.split(';')
-    if len(f) != 7:
+    if len(f) != 9:
         return text
-    for k in (5, 6):
+    for k in (5, 6, 7):
         if f[k] != '-':
             f[k] = ','.join(sorted(f[k].split(','), key=lambda x: int(x.split(':')[0])))
     return ';'.join(f)
@@ -130,36 +154,55 @@ def derive(pre, post):
             for x in sorted(gone, key=lambda r: rank.get(r, 10 ** 6)):
                 rms.append((rank.get(x, 10 ** 6), 'x:%d:%d' % (i, cur.index(x))))
                 cur.remove(x)
+    # UDF: File Identifier Descriptors by identity, directories by their File Entry
+    for i in sorted(post['udirs']):
+        old = set(x for x, _ in pre['udirs'][i]['fids']) if i in pre['udirs'] else None
+        if old is None:
+            adds.append(('u', 'u:%d' % i))
+        for x, l in post['udirs'][i]['fids']:
+            if old is None or x not in old:
+                adds.append(('f', 'f:%d:%d' % (i, l)))
+    for i in sorted(pre['udirs']):
+        if i not in post['udirs']:
+            rms.append((10 ** 9, 'u:%d' % i))
+            continue
+        new = set(x for x, _ in post['udirs'][i]['fids'])
+        for x, l in pre['udirs'][i]['fids']:
+            if x not in new:
+                rms.append((10 ** 8, 'f:%d:%d' % (i, l)))
+    due = post['ufree'] - pre['ufree']
     dce = post['ce'] - pre['ce']
     dfx = post['fixed'] - pre['fixed']
     if dfx < 0:
         raise Unsupported('descriptor removed')
     ino_add = ino_rm = None
-    for i, (l, n) in post['inos'].items():
-        n0 = pre['inos'].get(i, (l, 0))[1]
-        if n > n0:
+    for i, (l, n, nu) in post['inos'].items():
+        _l0, n0, nu0 = pre['inos'].get(i, (l, 0, 0))
+        if n > n0 and nu >= nu0:
             if ino_add is not None:
                 raise Unsupported('two contents')
-            ino_add = '%d:%d:%d' % (i, l, n - n0)
-        elif n < n0:
+            ino_add = '%d:%d:%d:%d' % (i, l, n - n0, nu - nu0)
+        elif n < n0 and nu <= nu0:
             if ino_rm is not None:
                 raise Unsupported('two contents')
-            ino_rm = '%d:%d' % (i, n0 - n)
-    for i, (l, n0) in pre['inos'].items():
+            ino_rm = '%d:%d:%d' % (i, n0 - n, nu0 - nu)
+        elif (n, nu) != (n0, nu0):
+            raise Unsupported('names of a content exchanged')
+    for i, (l, n0, nu0) in pre['inos'].items():
         if i not in post['inos']:
             if ino_rm is not None:
                 raise Unsupported('two contents')
-            ino_rm = '%d:%d' % (i, n0)
-    is_add = bool(adds) or dce > 0 or dfx > 0 or ino_add is not None
-    is_rm = bool(rms) or dce < 0 or ino_rm is not None
+            ino_rm = '%d:%d:%d' % (i, n0, nu0)
+    is_add = bool(adds) or dce > 0 or dfx > 0 or due > 0 or ino_add is not None
+    is_rm = bool(rms) or dce < 0 or due < 0 or ino_rm is not None
     if is_add and is_rm:
         raise Unsupported('mixed edit')
     if is_add:
-        parts = [p for _, p in adds] + ['c'] * dce + ['v'] * dfx
+        parts = [p for _, p in adds] + ['c'] * dce + ['v'] * dfx + ['e'] * due
         return 'a/%s/%s' % ('+'.join(parts) or '-', ino_add or '-')
     if is_rm:
         # removals of records in `linked_records` order, directories last
-        parts = [p for _, p in sorted(rms, key=lambda t: t[0])] + ['c'] * (-dce)
+        parts = [p for _, p in sorted(rms, key=lambda t: t[0])] + ['c'] * (-dce) + ['e'] * (-due)
         return 'r/%s/%s' % ('+'.join(parts) or '-', ino_rm or '-')
     return None
 
@@ -243,12 +286,12 @@ def check_history(ctx, cfg, ops, replay_obj, focus='C04'):
 
 
 def diff_fields(a, b):
-    names = ['fixed', 'ce', 'space', 'pt0', 'pt1', 'dirs', 'inos']
+    names = ['fixed', 'ce', 'space', 'pt0', 'pt1', 'dirs', 'inos', 'udirs', 'ufree']
     fa, fb = canon(a).split(';'), canon(b).split(';')
     out = []
     for n, x, y in zip(names, fa, fb):
         if x != y:
-            if n in ('dirs', 'inos'):
+            if n in ('dirs', 'inos', 'udirs'):
                 xs, ys = x.split(','), set(y.split(','))
                 x = ','.join(e for e in xs if e not in ys)[:160]
             out.append('%s=%s' % (n, x))
